@@ -264,6 +264,16 @@ fn gen_cases(ctx: &Ctx) -> Vec<Case> {
                     }
                 }
             }
+            // many surplus operands (a count kept in a narrow integer or a bit mask wraps at 8, 16, 32, 64, 256)
+            if std::ptr::eq(anchor, &anchors[0]) && !(form.ops.is_empty() && (form.mn == "lpm" || form.mn == "elpm")) {
+                for extra in [2usize, 6, 7, 8, 9, 14, 15, 16, 17, 30, 31, 32, 33, 62, 63, 64, 65, 254, 255, 256, 257] {
+                    let mut ops = base_ops.clone();
+                    for k in 0..extra {
+                        ops.push(if k % 2 == 0 { format!("{}", k % 7) } else { format!("r{}", k % 32) });
+                    }
+                    cases.push(Case { form: fi, text: assemble(form, &ops), expect: Expect::Reject, sig: format!("guard/{}/count/surplus-many", form.name) });
+                }
+            }
             if ctx.tier == Tier::Thorough && form.ops.len() == 2 {
                 // two operands out of domain at once
                 let bad = |op: &Opk, rng: &mut Rng| -> Option<String> {
@@ -525,7 +535,7 @@ pub fn run(ctx: &Ctx) -> i32 {
     ctx.exhaustive.store(true, std::sync::atomic::Ordering::Relaxed);
     fw::finish(
         ctx,
-        "per instruction form and legal anchor tuple, one operand at a time leaves its ISA domain: every register r0..r31 in each register position, every number in [lo-300, hi+300] plus ±2^k, ±2^k±1, ±i64::MAX and i64::MIN in each numeric position, operand-kind substitutions, 0..arity-1 and arity+1 operands, and for every two-operand form the complete cross product every register x every register / boundary value (thorough: two operands out at once, ±70000 windows on 16/22-bit fields); plus a device sweep: every device of the table x every form it has x each operand just outside, just inside and far outside (by 4095..2^32) its field; exhaustive for those windows; every register, cross-product and kind-confusion line (and a quarter of the numeric windows; thorough: all) once more with registers through `.def` aliases and numbers through `.equ` symbols, and once more as the body of a macro with the operands as arguments; distinct_nontrivial = distinct must-reject source lines",
+        "per instruction form and legal anchor tuple, one operand at a time leaves its ISA domain: every register r0..r31 in each register position, every number in [lo-300, hi+300] plus ±2^k, ±2^k±1, ±i64::MAX and i64::MIN in each numeric position, operand-kind substitutions, 0..arity-1, arity+1 and arity+2..arity+257 operands, and for every two-operand form the complete cross product every register x every register / boundary value (thorough: two operands out at once, ±70000 windows on 16/22-bit fields); plus a device sweep: every device of the table x every form it has x each operand just outside, just inside and far outside (by 4095..2^32) its field; exhaustive for those windows; every register, cross-product and kind-confusion line (and a quarter of the numeric windows; thorough: all) once more with registers through `.def` aliases and numbers through `.equ` symbols, and once more as the body of a macro with the operands as arguments; distinct_nontrivial = distinct must-reject source lines",
         &[
             "legality = refmodel/isa.rs operand domains (manual transcription)",
             "8-bit immediates written as -128..-1 are accepted as two's complement or rejected (statement silent); ld/st written with a displacement and ldd/std written with increment, decrement or X forms are must-reject (the ISA defines no such form for that mnemonic); `ldd Rd, Y` without displacement is not probed",
